@@ -7,7 +7,7 @@ import copy, json, os, sys, tempfile
 sys.path.insert(0, os.path.join(os.path.dirname(os.path.abspath(__file__)), "..", ".."))
 from checks import lib
 
-PER_KIND = 6
+PER_KIND = 3        # (the trace specification lists at most 20 lines per known-finding class: keep the candidate lists short)
 
 
 def flip(k):
@@ -57,7 +57,7 @@ def c_subrej(r):
 
 CORRUPT = {
     "Config": c_config, "RP": c_rp, "RPS": add("n"), "DP": flip("same"), "VT": add("d2"), "PB": c_pb, "BP": c_pairs, "BD": add("d1"),
-    "BN": add("n", -2), "Sub": add("numViews"), "SubRejected": c_subrej, "SubOrg": add("oview"), "SubFrom": add("view"), "SubBP": add("n"),
+    "BN": add("n"), "Sub": add("numViews"), "SubRejected": c_subrej, "SubOrg": add("oview"), "SubFrom": add("view"), "SubBP": add("n"),
     "SubCmp": flip("ge"), "SubMix": flip("le"), "Cmp": flip("ge"), "DPCmp": flip("lt"), "DPPCmp": flip("eq"), "BinCmp": flip("eq"),
     "Scanner": c_scanner, "ScCmp": flip("ne"),
 }
@@ -94,7 +94,8 @@ def main():
                     sub = r
                 lst = cands.setdefault(kind, [])
                 if len(lst) < PER_KIND and (kind != "RPS" or r["pairs"]) and (kind not in ("BP", "SubBP") or r["pairs"]):
-                    ctx = [x for x in (cfg, sub) if x is not None and x is not r]
+                    # SubCmp / SubMix lines carry their views themselves: only the Config line governs them
+                    ctx = [x for x in (cfg, None if kind in ("SubCmp", "SubMix") else sub) if x is not None and x is not r]
                     lst.append((ctx, r))
     # 1. the originals must be explained; keep the first explained candidate of every kind
     good, idx = [], []
@@ -108,7 +109,14 @@ def main():
         # the context lines must be explained too
         if i not in bad and all((i - len(ctx) + j) not in bad for j in range(len(ctx))) and kind not in chosen:
             chosen[kind] = (ctx, r)
-    print("kinds in the trace: %d, with an explained original: %d" % (len(cands), len(chosen)))
+    nexpl = len(chosen)
+    # kinds of which every candidate is left unexplained by a KNOWN finding (e.g. BN on the unchanged tree): the altered line
+    # must not be swallowed by the finding's signature either
+    for (kind, i, ctx, r) in idx:
+        if kind not in chosen and bad.get(i, "new") != "new" and all((i - len(ctx) + j) not in bad for j in range(len(ctx))):
+            chosen[kind] = (ctx, r)
+            print("%s: no explained original (known finding %s); altering a line of that class" % (kind, bad[i]))
+    print("kinds in the trace: %d, with an explained original: %d" % (len(cands), nexpl))
     # 2. one altered field per kind
     trace, where = [], []
     for kind, (ctx, r) in sorted(chosen.items()):
